@@ -124,6 +124,8 @@ const (
 	idxRace        = 1_000_000_000
 	idxCold        = 2_000_000_000
 	idxColdRace    = 3_000_000_000
+	idxGiant       = 4_000_000_000
+	idxGiantRace   = 5_000_000_000
 )
 
 type tierPlan struct {
@@ -133,8 +135,14 @@ type tierPlan struct {
 	ColdProcs   int // per build flavour
 	ColdCount   int // runs per cold process
 	MinimiseS   float64
+	GiantS      float64 // giant-input phase, plain build
+	GiantRaceS  float64 // ... race build (0: skipped)
 	WorkerGrace time.Duration
 }
+
+// giantEveryFor: every n-th run index is a giant-input scenario (seconds per run
+// instead of a millisecond, so they are rare in the quick tier).
+func giantEveryFor(o *options) uint64 { return 0 } // bulk phases: none; the giant phase passes 1 explicitly
 
 func planFor(o *options) tierPlan {
 	if o.Tier == "thorough" {
@@ -142,13 +150,13 @@ func planFor(o *options) tierPlan {
 		if b == 0 {
 			b = 1500
 		}
-		return tierPlan{DetSeeds: 40, PlainS: b * 0.45, RaceS: b * 0.45, ColdProcs: 400, ColdCount: 6, MinimiseS: 180, WorkerGrace: 5 * time.Minute}
+		return tierPlan{DetSeeds: 40, PlainS: b * 0.45, RaceS: b * 0.45, ColdProcs: 400, ColdCount: 6, MinimiseS: 180, GiantS: b * 0.05, GiantRaceS: b * 0.04, WorkerGrace: 5 * time.Minute}
 	}
 	b := o.BudgetS
 	if b == 0 {
 		b = 34
 	}
-	return tierPlan{DetSeeds: 10, PlainS: b * 0.4, RaceS: b * 0.6, ColdProcs: 48, ColdCount: 4, MinimiseS: 25, WorkerGrace: 2 * time.Minute}
+	return tierPlan{DetSeeds: 10, PlainS: b * 0.4, RaceS: b * 0.6, ColdProcs: 128, ColdCount: 3, MinimiseS: 25, GiantS: 4, WorkerGrace: 2 * time.Minute}
 }
 
 type finding struct {
@@ -225,12 +233,30 @@ func explore(o *options, p *prepared, t0 time.Time, writeEvidence bool) int {
 	collect("cold", runWorkers(specs, o.Workers))
 	fmt.Printf("c14: cold-start: %d processes (%.1fs)\n", len(specs), time.Since(tc).Seconds())
 
+	// ---- phase 2b: giant inputs (seconds per run instead of a millisecond: a phase and a budget of their own) ----
+	if len(findings) == 0 && plan.GiantS > 0 {
+		specs = nil
+		for w := 0; w < o.Workers; w++ {
+			specs = append(specs, workerSpec{Bin: p.BinPlain, Args: []string{"-base", u(o.Seed), "-from", u(idxGiant + uint64(w)), "-stride", strconv.Itoa(o.Workers),
+				"-budget-ms", strconv.Itoa(int(plan.GiantS * 1000)), "-samples", "0", "-giant-every", "1", "-sigs", filepath.Join(p.Scratch, fmt.Sprintf("sigs-giant-%d.bin", w))},
+				Timeout: time.Duration(plan.GiantS*float64(time.Second)) + plan.WorkerGrace})
+			if plan.GiantRaceS > 0 {
+				specs = append(specs, workerSpec{Bin: p.BinRace, Race: true, Args: []string{"-base", u(o.Seed), "-from", u(idxGiantRace + uint64(w)), "-stride", strconv.Itoa(o.Workers),
+					"-budget-ms", strconv.Itoa(int(plan.GiantRaceS * 1000)), "-samples", "0", "-giant-every", "1", "-sigs", filepath.Join(p.Scratch, fmt.Sprintf("sigs-giantr-%d.bin", w))},
+					Timeout: time.Duration(plan.GiantRaceS*float64(time.Second)) + plan.WorkerGrace})
+			}
+		}
+		tg := time.Now()
+		collect("giant", runWorkers(specs, o.Workers))
+		fmt.Printf("c14: giant inputs: %d runs (%.1fs)\n", ev.RunsByPhase["giant"], time.Since(tg).Seconds())
+	}
+
 	// ---- phase 3: bulk exploration, plain build then race build, 16 workers each ----
 	if len(findings) == 0 {
 		specs = nil
 		for w := 0; w < o.Workers; w++ {
 			specs = append(specs, workerSpec{Bin: p.BinPlain, Args: []string{"-base", u(o.Seed), "-from", u(idxPlain + uint64(w)), "-stride", strconv.Itoa(o.Workers),
-				"-budget-ms", strconv.Itoa(int(plan.PlainS * 1000)), "-samples", "1", "-sigs", filepath.Join(p.Scratch, fmt.Sprintf("sigs-plain-%d.bin", w))},
+				"-budget-ms", strconv.Itoa(int(plan.PlainS * 1000)), "-samples", "1", "-giant-every", u(giantEveryFor(o)), "-sigs", filepath.Join(p.Scratch, fmt.Sprintf("sigs-plain-%d.bin", w))},
 				Timeout: time.Duration(plan.PlainS*float64(time.Second)) + plan.WorkerGrace})
 		}
 		tp := time.Now()
@@ -241,7 +267,7 @@ func explore(o *options, p *prepared, t0 time.Time, writeEvidence bool) int {
 		specs = nil
 		for w := 0; w < o.Workers; w++ {
 			specs = append(specs, workerSpec{Bin: p.BinRace, Race: true, Args: []string{"-base", u(o.Seed), "-from", u(idxRace + uint64(w)), "-stride", strconv.Itoa(o.Workers),
-				"-budget-ms", strconv.Itoa(int(plan.RaceS * 1000)), "-samples", "1", "-sigs", filepath.Join(p.Scratch, fmt.Sprintf("sigs-race-%d.bin", w))},
+				"-budget-ms", strconv.Itoa(int(plan.RaceS * 1000)), "-samples", "1", "-giant-every", u(giantEveryFor(o)), "-sigs", filepath.Join(p.Scratch, fmt.Sprintf("sigs-race-%d.bin", w))},
 				Timeout: time.Duration(plan.RaceS*float64(time.Second)) + plan.WorkerGrace})
 		}
 		tr := time.Now()
